@@ -10,7 +10,10 @@ from . import common
 from . import joinmodel as J
 from .c06 import close, textbook
 
-RULE = ("exhaustive: every key column over {None,'a','b'} of length 1-5 (363 columns) with value columns over {None, 1, 2.5, 0}; sampled: 1-3 keys "
+from . import recompute
+
+RULE = ("[plus the shared recompute-after-history monitor: this property's operations evaluated on long-lived objects between in-place writes / renames must equal the same operations on fresh objects rebuilt from the current contents] "
+	"exhaustive: every key column over {None,'a','b'} of length 1-5 (363 columns) with value columns over {None, 1, 2.5, 0}; sampled: 1-3 keys "
 	"by name / own column / external vector, interleaved groups, single-row and all-None groups, composite keys sharing a component, hash-colliding "
 	"int keys, every subset of the six built-ins with 1-3 columns each (the same column up to three times) and 1-2 apply entries with order-"
 	"sensitive / input-draining functions wrapped in call-recording spies. Oracle: grouping by list search with == (no hashing), textbook "
@@ -24,7 +27,7 @@ ASSUMPTIONS = [
 ]
 EXHAUSTIVE = {"flag": True, "scope": "all single key columns over {None,'a','b'} up to length 5 (values sampled)"}
 ANCHOR_FUNCS = ["table:Table.aggregate", "vector:Vector.sum", "vector:Vector.mean", "vector:Vector.stdev"]
-REQUIRED_STRATA = {"aggregate": 800, "apply-spy": 200, "vector-agree": 100}
+REQUIRED_STRATA = {"recompute": 200, "aggregate": 800, "apply-spy": 200, "vector-agree": 100}
 
 FN_RE = re.compile(r"_(sum|mean|min|max|count|stdev)\d*$")
 
@@ -200,6 +203,7 @@ def run_vector_agree(chk, spec):
 
 
 RUNNERS = {"aggregate": run_aggregate, "vector_agree": run_vector_agree}
+RUNNERS["recompute"] = recompute.runner("C12")
 
 
 def exhaustive_specs(chk, op):
@@ -222,6 +226,7 @@ def exhaustive_specs(chk, op):
 
 
 def run(chk):
+	recompute.add_cases(chk, "C12")
 	rng = chk.rng
 	for spec in exhaustive_specs(chk, "aggregate"):
 		chk.case("aggregate", spec, "aggregate-exhaustive")
